@@ -426,13 +426,13 @@ Proof. intros d rt cr [r [ok H]]. cbn in H. contradiction. Qed.
 Lemma table_current_ok : forallb (cell_ok current) all_cells = true.
 Proof. vm_compute. reflexivity. Qed.
 
-Lemma table_size : N.of_nat (length all_cells) = 6000%N.
+Lemma table_size : N.of_nat (length all_cells) = 12000%N.
 Proof. vm_compute. reflexivity. Qed.
 
 Lemma table_cells_ok : forall c, In c all_cells -> cell_ok current c = true.
 Proof. intros c Hin. pose proof table_current_ok as H. rewrite forallb_forall in H. apply H. exact Hin. Qed.
 
-(* the same for every inhabitant of the cell type (finite case analysis: 5*3*10*2*5*4 = 6000 cases) *)
+(* the same for every inhabitant of the cell type (finite case analysis: 5*3*10*2*10*4 = 12000 cases) *)
 Lemma every_cell_ok : forall c : cell, cell_ok current c = true.
 Proof.
   intros [i m s r ms ts].
